@@ -17,6 +17,10 @@
 #include <type_traits>
 #include <utility>
 
+#ifdef UPA_VERIF_HOOKS
+namespace upa_verif { struct access; }
+#endif
+
 namespace upa {
 
 
@@ -373,6 +377,9 @@ private:
 
     friend class url;
     friend class detail::url_search_params_ptr;
+#ifdef UPA_VERIF_HOOKS
+    friend struct ::upa_verif::access;
+#endif
 
 private:
     name_value_list params_;
